@@ -106,6 +106,9 @@ def gen(seed: int, i: int, tier: str) -> dict:
         return gen_bytes(rng, i, "stream")
     if i % 10 == 9:
         return gen_bytes(rng, i, "mqtt")
+    if i % 10 == 1:
+        from vsim.universe import gen_universe
+        return gen_universe(random.Random(f"U:C03:{seed}:{i}"), tier)
     if i % 10 == 7:
         # controller state "a flush is in progress while the application sends": schedule sub-world shared with C09
         from props import c09
@@ -147,6 +150,18 @@ def gen(seed: int, i: int, tier: str) -> dict:
 def run(scn):
     if scn.get("kind") in ("stream", "mqtt"):
         return run_bytes(scn)
+    if scn.get("kind") == "universe":
+        from vsim.universe import run_universe
+
+        def on_step_u(i, op, obs, disc, model, w, res):
+            if obs is None or op[0] != "line":
+                return
+            if obs.kind == "hang":
+                res.violate(PROP, "returns-or-raises", "hang:universe", f"op#{i} {op!r}")
+            elif obs.kind == "err" and not obs.is_lib_error:
+                res.violate(PROP, "only-library-errors", f"{obs.cls}:universe", f"op#{i} {op!r}")
+
+        return run_universe(scn, PROP, ("registry", "yield"), on_step=on_step_u)
     if scn.get("kind") == "race":
         from props import c09
         inner = c09.run(scn["scn"])
